@@ -152,6 +152,17 @@ def counts_reach(*a):
     return LAST[9] is None and LAST[10][0][1] >= 1 and LAST[10][0][3] >= 1 and LAST[0] in ('j2', 'nie')
 
 
+def jtotal(n, d0, d1, d2, xf):
+    """The number of tests the parent adds up for a -j N run covers every layer subprocess that was started, also with
+    --stop-on-error and a child that reports a failure while others are still running (the real resume_tests under the
+    C06 schedule model: symbolic durations)."""
+    global LAST
+    from harness import c06
+    ok = c06.sched(n, 0, False, d0, d1, d2, 0, 0, 0, 0, 0, 0, xf)
+    LAST = ('jtotal',) + tuple(c06.LAST[:6]) + (c06.LAST[7],)
+    return ok
+
+
 def linear(c0, c1, c2, k1):
     """run_tests(): testsRun / summary arithmetic with unbounded symbolic
     countTestCases() of three tests (doctest-like tests count as several)."""
@@ -209,6 +220,11 @@ SPEC = {
                                                    'thorough': _B + ' and ka == 1 and su == 0 and td == 0 and not imp and verbose == 1'},
          'timeout': {'quick': 400, 'thorough': 1700},
          'fidelity': [_v(), _v(mode=1, ka=6, sk=True), _v(mode=2, ka=3, imp=True, verbose=2), _v(ka=7, rep2=True, kb=1, strict=False), _v(mode=4, su=1, td=2, verbose=0), _v(mode=1, ka=1, kb=2, nl=True), _v(mode=1, ka=2, fault=1, verbose=0), _v(mode=2, kb=1, fault=1)]},
+        {'name': 'jtotal', 'fn': 'jtotal', 'params': [('n', 'int'), ('d0', 'int'), ('d1', 'int'), ('d2', 'int'), ('xf', 'int')], 'call': 'n, d0, d1, d2, xf',
+         'bounds': {'quick': '1 <= n <= 4 and 1 <= d0 <= 2 and 1 <= d1 <= 2 and 1 <= d2 <= 2 and 0 <= xf <= 3', 'thorough': '1 <= n <= 4 and 1 <= d0 <= 3 and 1 <= d1 <= 3 and 1 <= d2 <= 3 and 0 <= xf <= 3'},
+         'slices': {'quick': ['n == %d' % n for n in range(1, 5)], 'thorough': ['n == %d and xf == %d' % (n, x) for n in range(1, 5) for x in range(4)]},
+         'timeout': {'quick': 300, 'thorough': 850},
+         'fidelity': [dict(n=2, d0=1, d1=2, d2=2, xf=1), dict(n=3, d0=2, d1=1, d2=1, xf=3)]},
         {'name': 'linear', 'fn': 'linear', 'params': [('c0', 'int'), ('c1', 'int'), ('c2', 'int'), ('k1', 'int')], 'call': 'c0, c1, c2, k1',
          'bounds': {'quick': 'c0 >= 0 and c1 >= 0 and c2 >= 0 and 0 <= k1 < 4', 'thorough': 'c0 >= 0 and c1 >= 0 and c2 >= 0 and 0 <= k1 < 4'},
          'timeout': {'quick': 120, 'thorough': 300},
